@@ -4,3 +4,4 @@ import UberjobModel.Props.C06
 #print axioms Uberjob.Engine.C06_error_real
 #print axioms Uberjob.Engine.C06_raises_iff
 #print axioms Uberjob.Engine.C06_failed_not_ok
+#print axioms Uberjob.Engine.C06_fine
